@@ -21,9 +21,11 @@ EXPLANATION = (
     'a recording fake. For every explored path one z3 query decides "path condition and not C17" where the oracle '
     '(Kahn order, least fixed point of the skip rule, written independently) is a formula over the still-symbolic '
     'booleans; one more query per shard proves that the explored path conditions cover the whole bounded input '
-    'space. Bounded: quick N=3 jobs (all 3^6 x 2^3 dependency shapes), thorough additionally N=3 with both-kind '
-    'edges and always_run-before-command and N=4 with at most 6 dependency edges, no self-dependency and one mention flavour per '
-    'pipeline (every DAG on 4 jobs has at most 6 edges). Counterexamples are solver models replayed concretely on the real code.'
+    'space. Bounded: quick N=3 jobs (all 3^6 x 2^3 dependency shapes, every mention flavour per consumer); thorough '
+    'additionally N=3 with always_run before the commands, N=3 with edges that are both explicit and resource-induced '
+    '(one flavour per pipeline), N=4 over ALL acyclic dependency relations on 4 jobs (acyclicity stated to the solver '
+    'through position variables; file mentions) and N=4 over all relations, cyclic or not, with at most 4 edges + '
+    'self-dependencies. Counterexamples are solver models replayed concretely on the real code.'
 )
 SRC_BATCH = 'hail/python/hailtop/batch/batch.py'
 SRC_BACKEND = 'hail/python/hailtop/batch/backend.py'
@@ -46,26 +48,26 @@ PARTS = {
 
 
 def _configs(tier):
+    """Budgets: the pool gets a global deadline (quick 170 s, thorough 1300 s); shards that do not finish are not
+    discharged."""
+    n3 = dict(tag='N3', N=3, kinds=[0, 1, 2], aro=[0], nfix=3)
     if tier == 'quick':
-        return [dict(tag='N3', N=3, kinds=[0, 1, 2], aro=[0], max_edges=None, nfix=3, deadline_s=150)]
+        return [n3], 170
     return [
-        dict(tag='N3', N=3, kinds=[0, 1, 2, 3], aro=[0, 1], max_edges=None, nfix=3, deadline_s=1200),
-        dict(tag='N4', N=4, kinds=[0, 1, 2], aro=[0], max_edges=6, max_self=0, global_flavour=True, nfix=4, deadline_s=1300),
-    ]
+        dict(n3, aro=[0, 1]),
+        dict(tag='N3both', N=3, kinds=[0, 1, 2, 3], aro=[0], global_flavour=True, nfix=3),
+        dict(tag='N4dag', N=4, kinds=[0, 1, 2], aro=[0], acyclic_only=True, fixed_flavour=0, nfix=3),
+        dict(tag='N4le4', N=4, kinds=[0, 1, 2], aro=[0], max_total=4, fixed_flavour=0, nfix=2),
+    ], 1300
 
 
-def _shards(cfg):
+def _shards(cfg, deadline_at):
     N = cfg['N']
     names = [f'e_{i}_{j}' for i in range(N) for j in range(N) if i != j][:cfg['nfix']]
     fixes = [{}]
     for nm in names:
         fixes = [dict(f, **{nm: k}) for f in fixes for k in range(len(cfg['kinds']))]
-    out = []
-    for f in fixes:
-        out.append(dict(N=N, kinds=cfg['kinds'], aro=cfg['aro'], max_edges=cfg.get('max_edges'),
-                        max_total=cfg.get('max_total'), max_self=cfg.get('max_self'),
-                        global_flavour=cfg.get('global_flavour', False), fix=f, deadline_s=cfg['deadline_s'], tag=cfg['tag']))
-    return out
+    return [dict({k: v for k, v in cfg.items() if k != 'nfix'}, fix=f, deadline_at=deadline_at) for f in fixes]
 
 
 def _work(a):
@@ -92,8 +94,8 @@ def _encode(R):
 
 
 def run(R):
-    cfgs = _configs(R.tier)
-    R.bounds = {c['tag']: {k: v for k, v in c.items() if k not in ('tag', 'nfix', 'deadline_s')} for c in cfgs}
+    cfgs, budget = _configs(R.tier)
+    R.bounds = {c['tag']: {k: v for k, v in c.items() if k not in ('tag', 'nfix')} for c in cfgs}
     R.bounds['symbolic'] = ('e_i_j (dependency kind per ordered pair), s_j (self-dependency), fl_j (file / group / '
                             'group member), aro, Bool ar_j (always_run), Bool fail_j (exit status)')
     R.assume('subprocess in hailtop.batch.backend is replaced by a recording fake: check_call raises '
@@ -108,7 +110,7 @@ def run(R):
              'over the recorded path conditions, not assumed')
     R.extra['trusted_base'] = ['z3', 'vt/shapesym.py + vt/glue.py proxies', 'harness/C17_pipeline.py oracle and fake subprocess']
     _encode(R)
-    shards = [s for c in cfgs for s in _shards(c)]
+    shards = [s for c in cfgs for s in _shards(c, time.time() + budget)]
     # big shards first (fewer fixed dependencies = more cycles/forks is not known a priori: keep the given order)
     t0 = time.time()
     results = []
